@@ -681,6 +681,189 @@ glue_harness! { #[kani::unwind(7)] fn g_full_latest_k1_drop() { g_full_at_stop(1
 glue_harness! { #[kani::unwind(7)] fn g_full_oldest_k2_stop() { g_full_at_stop(2, 1, END_STOP); } }
 glue_harness! { #[kani::unwind(7)] fn g_full_oldest_k3_drop() { g_full_at_stop(3, 1, END_DROP); } }
 
+// -----------------------------------------------------------------------------------------
+// S-read (C08): a reader thread's get_state() placed at channel-level scheduling points of
+// the loop (before / after the loop takes item j), two reads in a row
+// -----------------------------------------------------------------------------------------
+static mut READ_A: St = ST0;
+static mut READ_B: St = ST0;
+static mut READ_DONE: bool = false;
+fn read_yield(kind: u8, obj: usize) {
+    if rt::at_placement(kind, obj) {
+        unsafe {
+            if let Some(s) = G_STORE.as_ref() {
+                rt::IN_UNIT = true;
+                READ_A = rt::in_ctx(rt::CTX_CLIENT, || s.get_state());
+                READ_B = rt::in_ctx(rt::CTX_CLIENT, || <Store as StoreTrait<St, Act>>::get_state(s));
+                READ_DONE = true;
+                rt::IN_UNIT = false;
+            }
+        }
+    }
+}
+pub fn read_yield_pub(kind: u8, obj: usize) {
+    read_yield(kind, obj)
+}
+/// k actions queued, stop(); the reader runs when the loop is about to take / has just taken
+/// queue item number `occ` (item k is the shutdown marker)
+fn s_read(k: usize, kind: u8, occ: u8) {
+    g_reset();
+    crossbeam::hooks::set_native(Some(read_yield), None);
+    let init: St = kani::any();
+    let store = mk_glue_store(4, BackpressurePolicy::BlockOnFull, init);
+    unsafe {
+        core::ptr::write(&mut G_STORE, Some(store.clone()));
+        READ_DONE = false;
+    }
+    symbolic_summaries(k);
+    let mut j = 0;
+    while j < k {
+        core::mem::forget(StoreImpl::dispatch(&store, kani::any()));
+        j += 1;
+    }
+    store.stop();
+    rt::arm(kind, 0, occ);
+    rt::run_loop(0);
+    unsafe {
+        rt::PLACE_ARMED = false;
+    }
+    // when the loop is at queue item `occ`, exactly the actions 0..occ have been completely
+    // processed: the reader must see the state left by action occ-1 (the initial state for 0)
+    let expect = if occ == 0 { init } else { unsafe { SUM_OUT[occ as usize - 1] } };
+    chk!(8, unsafe { READ_DONE }, "VERIF: the reader ran");
+    chk!(8, unsafe { READ_A } == expect, "get_state() from another thread returns the state left by the last completely reduced action - never an invented or partially applied value");
+    chk!(8, unsafe { READ_B } == unsafe { READ_A }, "successive reads never go back (no action was reduced in between: same value)");
+    chk!(1, unsafe { READ_A } == expect, "the published state is the fold so far");
+    unsafe {
+        core::ptr::write(&mut G_STORE, None);
+    }
+    core::mem::forget(store);
+    finish!(1, 8);
+}
+macro_rules! read_harness {
+    ($($name:ident = ($k:expr, $kind:expr, $occ:expr);)+) => { $(
+        glue_harness! {
+            #[kani::stub(crossbeam::hooks::yield_point, crate::verif_kani::g_glue::read_yield_pub)]
+            #[kani::unwind(7)]
+            fn $name() { s_read($k, $kind, $occ); }
+        }
+    )+ };
+}
+read_harness! {
+    s_read_k2_before_first = (2, hk::RECV, 0);
+    s_read_k2_after_taking_second = (2, hk::TAKEN, 1);
+    s_read_k2_before_marker = (2, hk::RECV, 2);
+    s_read_k3_after_taking_third = (3, hk::TAKEN, 2);
+    s_read_k1_after_marker = (1, hk::TAKEN, 1);
+}
+
+// -----------------------------------------------------------------------------------------
+// S-block (C05): with the reducer held inside the reduce phase of the first action, a producer
+// dispatches as long as it is not made to wait; the number of actions accepted but not yet
+// started by the reducer must never exceed the capacity
+// -----------------------------------------------------------------------------------------
+static mut BLK_ACCEPTED: usize = 0;
+static mut BLK_CAP: usize = 0;
+fn blk_yield(kind: u8, obj: usize) {
+    if rt::at_placement(kind, obj) {
+        unsafe {
+            if let Some(s) = G_STORE.as_ref() {
+                rt::IN_UNIT = true;
+                // the producer keeps dispatching while it would not have to wait (BlockOnFull:
+                // room in the queue); at most 4 calls
+                let mut n = 0;
+                while n < 4 {
+                    if crossbeam::channel::ghost(0).len < BLK_CAP {
+                        let r = rt::in_ctx(rt::CTX_CLIENT, || StoreImpl::dispatch(s, 100 + n as u8));
+                        if r.is_ok() {
+                            BLK_ACCEPTED += 1;
+                        }
+                        core::mem::forget(r);
+                    }
+                    n += 1;
+                }
+                rt::IN_UNIT = false;
+            }
+        }
+    }
+}
+pub fn blk_yield_pub(kind: u8, obj: usize) {
+    blk_yield(kind, obj)
+}
+static mut BLK_STOPPED: bool = false;
+fn blk_block(kind: u8, obj: usize) {
+    unsafe {
+        // the reducer found its queue empty: now the client stops the store
+        if kind == hk::RECV && obj == 0 && !BLK_STOPPED && !rt::IN_UNIT {
+            BLK_STOPPED = true;
+            if let Some(s) = G_STORE.as_ref() {
+                rt::IN_UNIT = true;
+                rt::in_ctx(rt::CTX_CLIENT, || s.stop());
+                rt::IN_UNIT = false;
+                return;
+            }
+        }
+    }
+    panic!("VERIF-DEADLOCK: host blocked with no scheduler");
+}
+pub fn blk_block_pub(k: u8, o: usize) {
+    blk_block(k, o)
+}
+fn s_block(cap: usize) {
+    g_reset();
+    crossbeam::hooks::set_native(Some(blk_yield), Some(blk_block));
+    let store = mk_glue_store(cap, BackpressurePolicy::BlockOnFull, kani::any());
+    unsafe {
+        core::ptr::write(&mut G_STORE, Some(store.clone()));
+        BLK_ACCEPTED = 0;
+        BLK_CAP = cap;
+        BLK_STOPPED = false;
+    }
+    symbolic_summaries(MAXA);
+    // the queue is full before the reducer gets scheduled
+    let mut j = 0;
+    while j < cap {
+        let r = StoreImpl::dispatch(&store, kani::any());
+        if r.is_ok() {
+            unsafe {
+                BLK_ACCEPTED += 1;
+            }
+        }
+        core::mem::forget(r);
+        j += 1;
+    }
+    // host: the loop; the producer runs while the reducer is inside the reduce phase of action 0
+    rt::arm(rt::P_PHASE_REDUCE, 0, 0);
+    // (when the loop later finds its queue empty the scheduler lets the client call stop())
+    let ran = rt::run_loop(0);
+    chk!(5, ran && unsafe { BLK_STOPPED }, "VERIF: the loop ran and was stopped when idle");
+    let accepted = unsafe { BLK_ACCEPTED };
+    // at the placement exactly one action had been started by the reducer
+    chk!(5, accepted <= cap + 1, "accepted but not yet started actions never exceed the capacity (the reducer had started exactly one)");
+    chk!(5, accepted == cap + 1, "the producer resumes as soon as the reducer made room (one slot was free)");
+    chk!(5, crossbeam::channel::ghost(0).max_len <= cap, "the queue never holds more than `capacity` items");
+    unsafe {
+        core::ptr::write(&mut G_STORE, None);
+    }
+    core::mem::forget(store);
+    finish!(5);
+}
+
+macro_rules! block_harness {
+    ($($name:ident = $cap:expr;)+) => { $(
+        glue_harness! {
+            #[kani::stub(crossbeam::hooks::yield_point, crate::verif_kani::g_glue::blk_yield_pub)]
+            #[kani::stub(crossbeam::hooks::block, crate::verif_kani::g_glue::blk_block_pub)]
+            #[kani::unwind(8)]
+            fn $name() { s_block($cap); }
+        }
+    )+ };
+}
+block_harness! {
+    s_block_cap1 = 1;
+    s_block_cap2 = 2;
+}
+
 /// vacuity twin
 glue_harness! { #[kani::unwind(6)] fn twin_g_glue() {
     g_reset();
